@@ -164,14 +164,16 @@ func (vf *VersionedFetcher) Init(
 		false,
 	) // were going to discard and nuke this later
 
-	// run the DF init, VersionedFetchers only supports the Primary (0) index
+	// run the DF init, VersionedFetchers only supports the Primary (0) index: the temporary
+	// store holds no secondary index entries, so a secondary index chosen by the planner
+	// must not be handed down (the filter is still applied to the fetched document).
 	vf.Fetcher = NewDocumentFetcher()
 	return vf.Fetcher.Init(
 		ctx,
 		identity,
 		vf.store,
 		documentACP,
-		index,
+		immutable.None[client.IndexDescription](),
 		col,
 		fields,
 		filter,
